@@ -15,6 +15,7 @@ parse_file (const char *file, eav_t *eav)
     char *line = NULL;
     char *cp = line;
     size_t len = 0;
+    size_t cap = 0; /* size of the buffer owned by getline() */
     ssize_t read = 0;
     int passed = 0;
     int failed = 0;
@@ -25,7 +26,7 @@ parse_file (const char *file, eav_t *eav)
         return;
     }
 
-    while ((read = getline (&line, &len, fh)) != EOF) {
+    while ((read = getline (&line, &cap, fh)) != EOF) {
         if (read >= 2 && (memcmp(line + read - 2, "\r\n", 2)) == 0)
             line[read-2] = '\0';
         else if (read >= 1 && line[read-1] == '\n')
@@ -42,15 +43,19 @@ parse_file (const char *file, eav_t *eav)
         len = strlen (cp);
 
         /* remove white-space in the end */
-        if (cp[len - 1] == ' ' || cp[len - 1] == '\t')
+        if (len > 0 && (cp[len - 1] == ' ' || cp[len - 1] == '\t'))
             cp[--len] = '\0';
 
         if (eav_is_email (eav, cp, len)) {
-            msg_ok ("PASS: %s\n", sanitize_utf8(cp, len));
+            msg_ok ("PASS: ");
+            fput_sanitized_utf8 (stdout, cp, len);
+            msg_ok ("\n");
             passed++;
         }
         else {
-            msg_ok ("FAIL: %s\n", sanitize_utf8(cp, len));
+            msg_ok ("FAIL: ");
+            fput_sanitized_utf8 (stdout, cp, len);
+            msg_ok ("\n");
             msg_ok ("      %s\n", eav_errstr(eav));
             failed++;
         }
